@@ -97,8 +97,12 @@ class Gen:
             return E("prepremove")
         if x < 0.62:
             return E("close")
-        if x < 0.66:
+        if x < 0.645:
             return E("open")
+        if x < 0.653:
+            return E("openbadcounter")
+        if x < 0.66:
+            return E("setrevfail", v=rng.randint(1, 60))
         if x < 0.68:
             return E("getrevfail")
         if x < 0.70:
@@ -207,6 +211,23 @@ def getrevfail_cases():
     return out
 
 
+def counterfault_cases():
+    """the counter block unparsable at open (refused, nothing reinitialised) and unwritable at a set (refused, the
+    next write counts from the old value)"""
+    out = []
+    base = [E("create"), E("open"), E("setmode", mode="RW")] + [E("write", id=i) for i in range(1, 6)]
+    for tail in ([E("open"), E("setmode", mode="RW"), E("write", id=9)], [E("openbadcounter"), E("open"), E("setmode", mode="RW"), E("write", id=9)],
+                 [dict(k="attach")], [E("read")]):
+        out.append(base + [E("close"), E("openbadcounter")] + tail)
+        out.append(base + [E("crash"), E("openbadcounter")] + tail)
+    for v in (3, 40):
+        for tail in ([E("write", id=9)], [E("write", id=9), E("close"), E("open"), E("setmode", mode="RW"), E("write", id=10)],
+                     [E("setrev", v=v + 1), E("write", id=9)], [E("crash"), E("open"), E("setmode", mode="RW"), E("write", id=9)]):
+            out.append(base + [E("setrevfail", v=v)] + tail)
+    out.append([E("create"), E("open"), E("setrevfail", v=5), E("setmode", mode="WO"), E("setrevfail", v=5), E("write", id=1)])
+    return out
+
+
 def writefail_cases():
     """a write whose data write fails in the file system (every mode, clean and dirty, before and after good
     writes, followed by reopen / crash): refused, nothing applied, counter (memory and disk) unchanged"""
@@ -250,7 +271,7 @@ MODE = {"RW": "RW", "WO": "WO", "INIT": "INIT", "CLOSED": "CLOSED"}
 STATE = {"initial": "SInitial", "open": "SOpen", "closed": "SClosed", "dirty": "SDirty",
          "rebuilding": "SRebuilding", "error": "SError"}
 ACT = {a: "A" + a[0].upper() + a[1:] for a in ACTIONS}
-ENG = {"getrevfail": "OGetRevFail", "openfail": "OOpenFail", "closefail": "OCloseFail", "create": "OCreate", "open": "OOpen", "close": "OClose", "crash": "OCrash", "read": "ORead",
+ENG = {"openbadcounter": "OOpenBadCounter", "getrevfail": "OGetRevFail", "openfail": "OOpenFail", "closefail": "OCloseFail", "create": "OCreate", "open": "OOpen", "close": "OClose", "crash": "OCrash", "read": "ORead",
        "snapshot": "OSnapshot", "remove": "ORemove", "prepremove": "OPrepRemove", "reload": "OReload",
        "revert": "ORevert", "setcheckpoint": "OSetCheckpoint"}
 
@@ -272,6 +293,8 @@ def op_term(o):
             return "Eng (OSetMode %s)" % MODE.get(o["mode"], "INIT")
         if op == "setrev":
             return "Eng (OSetRev %s)" % z(o["v"])
+        if op == "setrevfail":
+            return "Eng (OSetRevFail %s)" % z(o["v"])
         if op == "setrebuilding":
             return "Eng (OSetRebuilding %s)" % ("true" if o.get("b") else "false")
         return "Eng %s" % ENG[op]
